@@ -44,6 +44,13 @@ def h_intr(cfg):
             ev = env.event()
             box['shared'] = ev
             box['target_due'] = None
+        elif wait_on in ('cond-any', 'cond-all'):
+            # the awaited event is a condition over two timeouts (its outcome must survive the interrupt as well)
+            a = env.timeout(num('dv'), value='A')
+            b = env.timeout(num('dw'), value='B')
+            box['operands'] = (a, b)
+            ev = (a | b) if wait_on == 'cond-any' else (a & b)
+            box['target_due'] = None
         else:
             def child():
                 yield env.timeout(num('dc'))
@@ -51,7 +58,9 @@ def h_intr(cfg):
                 return 'T'
             ev = env.process(child())
             box['target_due'] = None
-        ev.callbacks.append(lambda e: glog.append(('target-processed', step[0], env.now, None)))
+        if not wait_on.startswith('cond'):
+            # (no passive probe on condition targets: the victim stays their only subscriber, as in user programs)
+            ev.callbacks.append(lambda e: glog.append(('target-processed', step[0], env.now, None)))
         box['target'] = ev
         return ev
 
@@ -68,10 +77,19 @@ def h_intr(cfg):
         while True:
             try:
                 box['yields'] += 1
+                box['cur'] = cur
                 y_step, y_now, y_proc = step[0], env.now, cur.processed
                 v = yield cur
                 box['resumes'] += 1
-                check('c04.resumed-with-the-yielded-events-value', v == tag, (v, tag))
+                if tag == 'T' and wait_on.startswith('cond'):
+                    a, b = box['operands']
+                    got = v.todict() if hasattr(v, 'todict') else None
+                    want = got is not None and all(k is a or k is b for k in got) and \
+                        all(got[k] == ('A' if k is a else 'B') for k in got) and \
+                        (len(got) == 2 if wait_on == 'cond-all' else len(got) >= 1)
+                    check('c04.resumed-with-the-yielded-events-value', want, str(got))
+                else:
+                    check('c04.resumed-with-the-yielded-events-value', v == tag, (v, tag))
                 if y_proc:
                     check('c04.processed-target-continues-at-once', step[0] == y_step)
                     cover('re-yield-of-processed-target')
@@ -135,7 +153,7 @@ def h_intr(cfg):
             return
         v = yield t
         box['cow'] = box.get('cow', 0) + 1
-        check('c04.cowaiter-gets-outcome', v == 'T')
+        check('c04.cowaiter-gets-outcome', v == 'T' or (wait_on.startswith('cond') and hasattr(v, 'todict')))
         glog.append(('cowaiter', step[0], env.now, None))
 
     def releaser():
@@ -186,6 +204,14 @@ def h_intr(cfg):
               glog.index(starts[0]) < [i for i, g in enumerate(glog) if g[0] == 'receipt'][0])
     # the victim is resumed by an event only as often as it yielded and was not interrupted
     check('c04.no-spurious-resume', box['resumes'] + len(receipts) <= box['yields'])
+    # the awaited event keeps its outcome for a later re-yield: at the end the victim is not left waiting for a processed event
+    vic = box['victim']
+    if vic is not None:
+        stranded = vic.is_alive and box.get('cur') is not None and box['cur'].processed
+        check('c04.re-yield-gets-the-outcome', not stranded, 'victim still waits for an event that has been processed')
+        if wait_on.startswith('cond') and 'target' in box:
+            # every timeout has fired by now: the awaited condition has its outcome, interrupted waiter or not
+            check('c04.event-keeps-its-outcome', box['target'].processed, 'the awaited condition never got its outcome')
     if cfg.get('cowaiter') and 'target' in box and box['target'].processed:
         check('c04.cowaiter-exactly-once', box.get('cow', 0) == 1, box.get('cow', 0))
     if len(receipts) >= 1:
@@ -215,6 +241,13 @@ def jobs(tier, seed):
                     js.append({'harness': 'intr', 'cfg': cfg, 'weight': 6 ** sum(intr)})
     js.append({'harness': 'intr', 'cfg': {'wait_on': 'timeout', 'handler': 'rewait', 'interrupters': [2], 'cowaiter': False,
                                           'sorts': 'int', 'spawn_by_interrupter': True}, 'weight': 30})
+    # the awaited event is a condition (any_of / all_of over two timeouts)
+    for wait_on in ('cond-any', 'cond-all'):
+        for handler in ('rewait', 'other', ['other', 'rewait'], 'finish'):
+            for intr in ([1], [2]) if tier == 'quick' else ([1], [2], [1, 1], [3]):
+                for cow in (False, True) if handler in ('rewait', ['other', 'rewait']) else (False,):
+                    js.append({'harness': 'intr', 'weight': 6 ** sum(intr) * 3,
+                               'cfg': {'wait_on': wait_on, 'handler': handler, 'interrupters': intr, 'cowaiter': cow, 'sorts': 'int'}})
     for wait_on in ('timeout', 'event', 'child'):
         # several interrupts issued in one step; the victim ends on the first: the rest is discarded
         js.append({'harness': 'intr', 'cfg': {'wait_on': wait_on, 'handler': 'finish', 'interrupters': [3], 'burst': True,
@@ -239,12 +272,12 @@ def jobs(tier, seed):
 META = {
     'rule': 'one case = one feasible path: an order-type of issue instants, the victim\'s awaited event and the handler\'s '
             'follow-up waits; non-trivial = at least one interrupt received',
-    'required_labels': ['c04.cause', 'c04.delivered-at-issue-instant', 'c04.ahead-of-ordinary-events',
+    'required_labels': ['c04.re-yield-gets-the-outcome', 'c04.event-keeps-its-outcome', 'c04.cause', 'c04.delivered-at-issue-instant', 'c04.ahead-of-ordinary-events',
                         'c04.resumed-with-the-yielded-events-value', 'c04.no-spurious-resume', 'c04.runtime-error-only-if-dead',
                         'c04.cowaiter-exactly-once', 'c04.started-before-first-interrupt'],
     'required_covers': ['nontrivial', 'several-received', 'pending-discarded', 'dead-victim-refused', 'self-interrupt-refused',
                         're-yield-of-processed-target', 'victim-raised'],
-    'bounds': {'quick': 'one victim waiting on a timeout / shared event / child; handlers finish, re-wait, wait for another timeout, raise; '
+    'bounds': {'quick': 'one victim waiting on a timeout / shared event / child / any_of or all_of condition over two timeouts; handlers finish, re-wait, wait for another timeout, raise; '
                         '1-2 interrupters issuing <= 2 interrupts at symbolic instants with symbolic causes; optional co-waiter; victim '
                         'spawned and interrupted in one instant; self-interrupt attempt',
                'thorough': '<= 4 interrupts from <= 3 interrupters (1, 2, 3, 1+1, 2+1, 1+1+1, 2+2); handler sequences of three steps'},
